@@ -293,6 +293,16 @@ func libModSet(vc *VC, callee *ssa.Function, c *ssa.CallCommon) (map[string]bool
 	switch {
 	case strings.HasPrefix(k, "sync.(*Mutex)"), strings.HasPrefix(k, "sync.(*RWMutex)"):
 		return map[string]bool{}, true
+	case k == "taskloop.(*Loop).Run" && vc.S.Contracts[k] == nil:
+		set := map[string]bool{}
+		if mc, ok := c.Args[2].(*ssa.MakeClosure); ok {
+			for f := range vc.modSet(mc.Fn.(*ssa.Function), map[*ssa.Function]bool{}) {
+				set[f] = true
+			}
+		} else {
+			set["*"] = true
+		}
+		return set, true
 	case k == "sync.(*Once).Do":
 		set := map[string]bool{}
 		vc.addrFamilies(c.Args[0], set)
@@ -389,6 +399,27 @@ func (fr *Frame) libModel(callee *ssa.Function, args []Val, rt types.Type, pos t
 		vc.assume(fr.curR, "(= "+v.T()+" (+ "+joinSp(sum)+"))")
 		fr.cur.heap = vc.heapSet(fr.cur.heap, "E_uint8", vc.define("E_uint8", vc.famSort["E_uint8"], "(store "+cur+" "+b.L[0]+" "+inner+")"))
 		return Val{Typ: rt}, true
+	}
+	if k == "taskloop.(*Loop).Run" && vc.S.Contracts[k] == nil {
+		// As seen from package ice (DESIGN 3.6): either the task ran exactly once to completion on
+		// the loop (nil returned) or it did not run (non-nil error). Tasks of one loop do not
+		// overlap with each other (B-loop-mutex, assumed).
+		vc.note("taskloop.Loop.Run: the task runs exactly once and nil is returned, or it does not run and an error is returned (structural half checked on taskloop itself; mutual exclusion of tasks assumed)")
+		ran := vc.fresh("loop.ran", "Bool")
+		clo := args[2].Clo
+		fr.condCall(ran, func() {
+			if clo != nil {
+				fn := clo.Fn.(*ssa.Function)
+				ctxArg := []Val{args[1]}
+				fr.staticCall(fn, clo.Bindings, ctxArg, resultType(fn.Signature), pos)
+			} else {
+				fr.unknownCall("taskloop.Run of unknown func", nil, rt, true)
+			}
+		})
+		res := vc.freshVal("loop.err", rt)
+		fr.typed(res)
+		vc.assume(fr.curR, "(= "+ran+" (= "+res.L[0]+" 0))")
+		return res, true
 	}
 	if k == "sync.(*Once).Do" {
 		// once.Do(f): if !done { done = true; f() }
